@@ -10,36 +10,38 @@ import (
 )
 
 type Clause struct {
-	Kind  string // requires ensures derives invariant
-	Name  string
-	Props []string
-	Expr  ast.Expr
-	Text  string
-	By    []ast.Expr // lemma applications
-	Pos   string
+	Kind     string // requires ensures derives invariant
+	Name     string
+	Props    []string
+	Expr     ast.Expr
+	Text     string
+	By       []ast.Expr // lemma applications
+	Pos      string
+	Internal bool // proved for the function itself, not exported to callers
 }
 
 type FuncContract struct {
-	Pkg       *Pkg
-	Key       string
-	Mode      string
-	Requires  []*Clause
-	Ensures   []*Clause
-	Derives   []*Clause
-	PreLemmas []*Clause
-	Modifies  []ast.Expr
-	Returns   []string // per result: param name, "fresh", "fresh:N" , "" (scalar)
-	Nilable   map[string]bool
-	NoAlias   bool
-	Alias     [][]string // explicit alias groups to enumerate (optional)
-	Uses      []ast.Expr
-	Reveal    map[string]bool
-	Lens      map[string][]int // slice param -> lengths to enumerate
-	Panics    *Clause          // ensures_panics condition
-	Pos       string
-	Trusted   bool
-	Loops     map[int]*LoopContract
-	Props     []string
+	Pkg         *Pkg
+	Key         string
+	Mode        string
+	Requires    []*Clause
+	Ensures     []*Clause
+	Derives     []*Clause
+	PreLemmas   []*Clause
+	Modifies    []ast.Expr
+	Returns     []string // per result: param name, "fresh", "fresh:N" , "" (scalar)
+	Nilable     map[string]bool
+	NoAlias     bool
+	Alias       [][]string // explicit alias groups to enumerate (optional)
+	Uses        []ast.Expr
+	Reveal      map[string]bool
+	Lens        map[string][]int // slice param -> lengths to enumerate
+	Panics      *Clause          // ensures_panics condition
+	Pos         string
+	Trusted     bool
+	SchedExcept ast.Expr
+	Loops       map[int]*LoopContract
+	Props       []string
 }
 
 func (fc *FuncContract) QName() string { return fc.Pkg.Name + "." + fc.Key }
@@ -79,9 +81,15 @@ type Specs struct {
 	Lemmas   map[string]*Lemma
 	Declares map[string]*Declare
 	Assumes  []string
+	PropTags []propTag
 }
 
-var clauseHead = regexp.MustCompile(`^(requires|ensures|derives|invariant|ensures_panics|prelemma)\s+(?:([A-Za-z0-9_.-]+)\s*(?:\[([A-Z0-9, ]*)\])?\s*:\s+)?(.*)$`)
+type propTag struct {
+	props []string
+	re    *regexp.Regexp
+}
+
+var clauseHead = regexp.MustCompile(`^(requires|ensures|proves|derives|invariant|ensures_panics|prelemma)\s+(?:([A-Za-z0-9_.-]+)\s*(?:\[([A-Z0-9, ]*)\])?\s*:\s+)?(.*)$`)
 
 var lemmaHead = regexp.MustCompile(`^(\w+)\(([^)]*)\)\s*(?:\{lean:\s*([^}]*)\})?\s*:\s*(.*)$`)
 
@@ -194,6 +202,8 @@ func ParseSpecs(prog *Program) *Specs {
 			cur.Mode = rest
 		case "trusted":
 			cur.Trusted = true
+		case "sched_except":
+			cur.SchedExcept = parseExprAt(rest, l.pos)
 		case "props":
 			for _, p := range strings.Split(rest, ",") {
 				cur.Props = append(cur.Props, strings.TrimSpace(p))
@@ -221,7 +231,7 @@ func ParseSpecs(prog *Program) *Specs {
 			for _, p := range strings.Split(rest, ",") {
 				cur.Reveal[strings.TrimSpace(p)] = true
 			}
-		case "lens":
+		case "lens", "vals":
 			// lens data 0,1,33,65
 			f := strings.Fields(rest)
 			for _, p := range strings.Split(f[1], ",") {
@@ -243,9 +253,17 @@ func ParseSpecs(prog *Program) *Specs {
 					cur.Uses = append(cur.Uses, e)
 				}
 			}
+		case "proptag":
+			// proptag C15, C16: <regexp on the qualified function name>
+			i := strings.Index(rest, ":")
+			var ps []string
+			for _, p := range strings.Split(rest[:i], ",") {
+				ps = append(ps, strings.TrimSpace(p))
+			}
+			sp.PropTags = append(sp.PropTags, propTag{ps, regexp.MustCompile(strings.TrimSpace(rest[i+1:]))})
 		case "assume":
 			sp.Assumes = append(sp.Assumes, rest)
-		case "requires", "ensures", "derives", "invariant", "ensures_panics", "prelemma":
+		case "requires", "ensures", "proves", "derives", "invariant", "ensures_panics", "prelemma":
 			m := clauseHead.FindStringSubmatch(t)
 			if m == nil {
 				panic(engineError{fmt.Sprintf("%s: malformed clause %q", l.pos, t)})
@@ -268,7 +286,8 @@ func ParseSpecs(prog *Program) *Specs {
 			switch c.Kind {
 			case "requires":
 				cur.Requires = append(cur.Requires, c)
-			case "ensures":
+			case "ensures", "proves":
+				c.Internal = c.Kind == "proves"
 				if c.Name == "" {
 					c.Name = fmt.Sprintf("e%d", len(cur.Ensures)+1)
 				}
@@ -293,6 +312,17 @@ func ParseSpecs(prog *Program) *Specs {
 			}
 		default:
 			panic(engineError{fmt.Sprintf("%s: unknown contract keyword %q", l.pos, word)})
+		}
+	}
+	for _, pt := range sp.PropTags {
+		for name, fc := range sp.Funcs {
+			if pt.re.MatchString(name) {
+				for _, p := range pt.props {
+					if !contains(fc.Props, p) {
+						fc.Props = append(fc.Props, p)
+					}
+				}
+			}
 		}
 	}
 	return sp
